@@ -141,7 +141,7 @@ theorem matchAny_eof (D : List Dialect) (cap : Nat) (stop : Bool) (ks : List Kin
   | cons k ks ih =>
     have hk : k ≠ .EOF := fun h => hks (h ▸ List.mem_cons_self ..)
     obtain ⟨c1, h1⟩ := matchP_eof D cap stop k hk t ht c
-    rw [GV.matchAny, run_bind, h1]
+    rw [GV.matchAny, prun_bind, h1]
     dsimp only
     simp only [Bool.false_eq_true, if_false]
     exact ih (fun h => hks (List.mem_cons_of_mem _ h)) c1
@@ -160,11 +160,11 @@ theorem lookaheadLoop_term (D : List Dialect) (cap : Nat) (stop : Bool) (la : Lo
   | zero => intro acc c hN; exact absurd hN (Nat.not_succ_le_zero _)
   | succ n ih =>
     intro acc c hN r c' h
-    rw [lookaheadLoop, run_bind] at h
+    rw [lookaheadLoop, prun_bind] at h
     obtain ⟨t, c1, hr0, hM, hNt, -⟩ := readToken_meas c
     rw [hr0] at h
     dsimp only at h
-    rw [run_bind] at h
+    rw [prun_bind] at h
     rcases hr1 : run (matchAny D cap stop la.expected t) c1 with ⟨r1, c2⟩
     rw [hr1] at h
     cases r1 with
@@ -176,11 +176,11 @@ theorem lookaheadLoop_term (D : List Dialect) (cap : Nat) (stop : Bool) (la : Lo
       dsimp only at h ht1
       have hc1 : cntNE [t1] = cntNE [t] := cntNE_single_of_tok ht1
       split at h
-      · rw [run_pure] at h; cases h
+      · rw [prun_pure] at h; cases h
         dsimp only
         rw [cntNE_append, hs1.measM]; omega
       · rename_i hm1
-        rw [run_bind] at h
+        rw [prun_bind] at h
         rcases hr2 : run (matchAny D cap stop la.skip t1) c2 with ⟨r2, c3⟩
         rw [hr2] at h
         cases r2 with
@@ -208,7 +208,7 @@ theorem lookaheadLoop_term (D : List Dialect) (cap : Nat) (stop : Bool) (la : Lo
               obtain ⟨m, read⟩ := r
               dsimp only at this ⊢
               rw [this, cntNE_append, hs2.measM]; omega
-          · rw [run_pure] at h; cases h
+          · rw [prun_pure] at h; cases h
             dsimp only
             rw [cntNE_append, hs2.measM]; omega
 
@@ -216,9 +216,9 @@ theorem lookahead_term (D : List Dialect) (cap : Nat) (stop : Bool) (la : LookAh
     (h2 : Kind.EOF ∉ la.skip) (k : Nat) :
     Inv (fun c => measM c = k) (fun e _ => NoFuel e) (lookahead D cap stop la) := by
   refine Triple.intro fun c r c' hc hr => ?_
-  rw [lookahead, run_bind, run_get] at hr
+  rw [lookahead, prun_bind, run_get] at hr
   dsimp only at hr
-  rw [run_bind] at hr
+  rw [prun_bind] at hr
   rcases hl : run (lookaheadLoop D cap stop la (c.queue.length + c.lines.length + 2) []) c with ⟨r1, c1⟩
   rw [hl] at hr
   have := lookaheadLoop_term D cap stop la h2 _ [] c (by unfold measN; omega) _ _ hl
@@ -227,9 +227,9 @@ theorem lookahead_term (D : List Dialect) (cap : Nat) (stop : Bool) (la : LookAh
   | ok r1 =>
     obtain ⟨m, read⟩ := r1
     dsimp only at hr this
-    rw [run_bind, run_modify] at hr
+    rw [prun_bind, run_modify] at hr
     dsimp only at hr
-    rw [run_pure] at hr
+    rw [prun_pure] at hr
     cases hr
     dsimp only
     unfold measM at *
